@@ -190,8 +190,8 @@ THEOREMS = {
     "find_first_of": ["Tetl.C08.Props.find_first_of_eq"], "find_last_of": ["Tetl.C08.Props.find_last_of_eq"],
     "find_first_not_of": ["Tetl.C08.Props.find_first_not_of_eq", "Tetl.C08.Props.find_first_not_of_char_eq"],
     "find_last_not_of": ["Tetl.C08.Props.find_last_not_of_eq"],
-    "compare": ["Tetl.C08.Props.compare_eq", "Tetl.C08.Props.compare3_eq", "Tetl.C08.Props.compare5_eq"],
-    "rel": ["Tetl.C08.Props.viewEq_eq", "Tetl.C08.Props.compare_eq"],
+    "compare": ["Tetl.C08.Props.compare_eq", "Tetl.C08.Props.compare3_eq", "Tetl.C08.Props.compare5_eq", "Tetl.C08.Props.cmpSigned_eq_cmp_key"],
+    "rel": ["Tetl.C08.Props.viewEq_eq", "Tetl.C08.Props.compare_eq", "Tetl.C08.Props.cmpSigned_eq_cmp_key", "Tetl.C08.Props.signedKey32_inj"],
     "starts_with": ["Tetl.C08.Props.starts_with_eq", "Tetl.C08.Props.starts_with_char_eq"],
     "ends_with": ["Tetl.C08.Props.ends_with_eq", "Tetl.C08.Props.ends_with_char_eq"],
     "contains": ["Tetl.C08.Props.contains_eq"], "substr": ["Tetl.C08.Props.substr_eq"], "copy": ["Tetl.C08.Props.copy_eq"],
